@@ -135,6 +135,12 @@ def dsRemoveGraph (cfg : Cfg) (m : CMem) (k : Key) : CMem :=
   let m1 := m.removeGraph k
   if k = cfg.dflt then m1.addGraph cfg.dflt else m1
 
+/-- `Dataset.remove_graph(None)`: `g = self.get_context(None)` is `Graph(store, identifier=None)`, a graph under a
+    brand-new blank-node name `k` (harness-owned key, fresh by assumption as for `graph(None)`); then exactly the code of
+    `remove_graph(k)`: `store.remove_graph(g)` (the `KeyError` of `__all_contexts.remove` swallowed), and — `g` being a
+    `Graph` now, not `None`, and not the default graph — no re-registration.  (`None` does NOT denote the default graph.) -/
+def dsRemoveGraphNone (cfg : Cfg) (m : CMem) (k : Key) : CMem := dsRemoveGraph cfg m k
+
 /-- `ConjunctiveGraph.remove_context(g)` -/
 def cgRemoveContext (m : CMem) (k : Key) : CMem := m.remove (none, none, none) (some k)
 
